@@ -265,6 +265,8 @@ def run(chk):
 # extracted model, die() <-> SIGABRT; (b) emulator end: stream.json files written by this check with well-formed and
 # malformed "ovni.mark" subtrees through the real ovniemu, verdict and PCF sections 100+t compared with
 # emu_types_of_trees / emu_pcf_of_trees.
+# label values beyond the int range: the key of the defect repaired in /repo (pcf_add_value took an int); on a tree without the
+# repair the fixed programs/cases below fail the independent decider under this key
 KNOWN_INT_KEY = "label-value-truncated-to-int"
 MJ_TITLES = ["phase", "it", "x y", "a.b", "q\"uote", "back\\slash", "T" * 511, "T" * 512, "T" * 700, "t\tab"]
 MJ_LABELS = ["init", "compute", "io wait", "l.dot", "L" * 511, "L" * 512, "x"]
@@ -498,7 +500,7 @@ def mj_fixed_cases():
         ("limit:title-512", False, [("o", [("3", T("T" * 512, "single"))])]),
         ("limit:label-512", False, [("o", [("3", T("t", "single", L([(1, "L" * 512)])))])]),
         ("limit:title-512-second-thread", False, [ok1, ("o", [("3", T("T" * 512, "stack"))])]),
-        # beyond int: the finding
+        # beyond int (the repaired finding): judged like any other label
         ("big:two-labels-equal-mod-2^32", True, [("o", [("3", T("colour", "single", L([(5, "five"), (2 ** 32 + 5, "big")])))])]),
         ("big:one-label-2^32+5", True, [("o", [("3", T("colour", "single", L([(2 ** 32 + 5, "big")])))])]),
         ("big:label-2^31", True, [("o", [("3", T("colour", "single", L([(2 ** 31, "big")])))])]),
@@ -715,6 +717,8 @@ def markjson_family(chk, build):
                         big = any(v >= 2 ** 31 for _, (_, ls) in wantp.items() for v in ls)
                         long_ = any(len(ti) >= 512 or any(len(l) >= 512 for l in ls.values()) for _, (ti, ls) in wantp.items())
                         got = mj_pcf(pcfs.get("thread.pcf", "")) if rc == 0 else None
+                        if rc == 0 and got == wantp and mj_pcf(pcfs.get("cpu.pcf", "")) != wantp:
+                            got = mj_pcf(pcfs.get("cpu.pcf", ""))
                         if long_:
                             chk.count("markjson:runtime-title-or-label-of-512+ (refused in emulation: %s)" % (rc != 0))
                         elif got != wantp:
@@ -802,7 +806,7 @@ def markjson_family(chk, build):
         "can write is also judged against the property text (merge and appear, conflicts refused)" % len(mj_fixed_cases()))
     if mism:
         chk.coverage["markjson_disagreements"] = mism[:10]
-        if not [v for v in chk.violations if str(v[0]).startswith("markjson-")]:
+        if not [v for v in chk.violations if str(v[0]).startswith("markjson-") or str(v[0]) == KNOWN_INT_KEY]:
             chk.violation("broken-correspondence:markjson", "the mark-metadata model and the real code disagree on %d cases, none of which breaks the property" % len(mism),
                           {"correspondence": "extracted MarkJsonDefs (mrun / emu_pcf_of_trees) vs libovni.so and ovniemu", "disagreements": mism[:12]}, found_input=False)
         else:
